@@ -885,7 +885,8 @@ theorem GT.profiles {E : List Label} (he : ChainEnv env nmax) (hc : SetCtx env s
   intro pol hp r hr
   obtain ⟨ha, hok⟩ := h pol hp r hr
   refine ⟨hok, ?_⟩
-  rcases profileLabel_mem al r ha with e | e
+  rcases profileLabel_mem al r ha with e | e | e
+  · exact Or.inl e
   · exact Or.inr (by rw [e]; exact hal)
   · exact Or.inr (by rw [e]; exact hd)
 
